@@ -14,7 +14,7 @@
        AGAIN `o_blk` (the fixed point that makes the induction go through);
        the root (input of compute_root_layout) over the leaf / over a container asks `nqr` such queries.
    The induction over the depth (Proofs) then needs no number fact beyond this check; it is evaluated over binary32 by vm_compute.
-   `seq` = an EXACT equality of numbers (representation equality, Model/TaffyKey.v f32_seqb). *)
+   `xeq` = an EXACT equality of numbers (representation equality, Model/TaffyKey.v f32_seqb). *)
 From Coq Require Import ZArith NArith Bool List.
 From TV Require Import Num.Num.
 From TV Require Model.Leaf Model.MeasureFamily Model.Cache.
@@ -46,14 +46,14 @@ Arguments EQ {In Out Lay}. Arguments ES {In Out Lay}.
 
 Section ChainInduct.
   Context {T : Type} `{Num T}.
-  Variable seq : T -> T -> bool.
+  Variable xeq : T -> T -> bool.
 
   Definition bev : Type := aev (BIn T) (ChildOut T) (BLayout T).
 
-  Definition ms_eqb_with (a b : MarginSet T) : bool := seq (ms_positive a) (ms_positive b) && seq (ms_negative a) (ms_negative b).
+  Definition ms_eqb_with (a b : MarginSet T) : bool := xeq (ms_positive a) (ms_positive b) && xeq (ms_negative a) (ms_negative b).
   Definition cout_eqb_with (a b : ChildOut T) : bool :=
-    seq (s_w (co_size a)) (s_w (co_size b)) && seq (s_h (co_size a)) (s_h (co_size b))
-    && seq (s_w (co_content_size a)) (s_w (co_content_size b)) && seq (s_h (co_content_size a)) (s_h (co_content_size b))
+    xeq (s_w (co_size a)) (s_w (co_size b)) && xeq (s_h (co_size a)) (s_h (co_size b))
+    && xeq (s_w (co_content_size a)) (s_w (co_content_size b)) && xeq (s_h (co_content_size a)) (s_h (co_content_size b))
     && ms_eqb_with (co_top a) (co_top b) && ms_eqb_with (co_bottom a) (co_bottom b) && Bool.eqb (co_ct a) (co_ct b).
 
   (* the two kinds of nodes of a chain *)
@@ -82,7 +82,7 @@ Section ChainInduct.
                       end) tr.
   Definition trace_ok (lvl : BIn T) (oc : ChildOut T) (tr : list bev) : bool :=
     match tr with
-    | EQ c i _ :: rest => Nat.eqb c 0 && bin_eqb_with seq i lvl && later_ok lvl oc rest
+    | EQ c i _ :: rest => Nat.eqb c 0 && bin_eqb_with xeq i lvl && later_ok lvl oc rest
     | _ => false
     end.
 
@@ -122,8 +122,8 @@ Section ChainInduct.
     end.
 End ChainInduct.
 
-Notation family_ok seq mix k nq nqr :=
-  (family_ok_body seq (blkn mix) (lvl_in mix k) (rootin mix k) (o_leaf mix k) (o_blk seq mix k nq) nq nqr).
+Notation family_ok xeq mix k nq nqr :=
+  (family_ok_body xeq (blkn mix) (lvl_in mix k) (rootin mix k) (o_leaf mix k) (o_blk xeq mix k nq) nq nqr).
 
 (* the families for which the check holds over binary32 (Proofs/BlockChainInductF32.v), with their rate r: every node below the root is
    asked r times (the root once), i.e. r * depth + 1 compute_cached_layout calls in all.  k as in `chain_avail` (every k >= 2 is
